@@ -145,7 +145,7 @@ def fileStep (s : Store) (v : View) (h : Handle) : FOp → Store × View × Hand
       | some n =>
         match setMode n mode v with
         | some n' => (s.set i n', v, h, .ok .unit)
-        | none => (s, v, h, .err .EACCES)
+        | none => (s, v, h, .err .EPERM)       -- neither the owner nor the administrator (fchmod(2): EPERM)
       | none => (s, v, h, .panic)
   | .chown uid gid =>
     if h.name.isEmpty then (s, v, h, .err .invalid) else
@@ -154,7 +154,10 @@ def fileStep (s : Store) (v : View) (h : Handle) : FOp → Store × View × Hand
     | some i =>
       match s.get i with
       | some n =>
-        if !checkPerm n.meta omWrite v then (s, v, h, .err .EPERM)
+        -- baseNode.mayChown: the administrator; or the owner, leaving the owner as it is and setting the group to the
+        -- node's group or to its own (write permission on the file is not what allows it), as fchown(2)
+        if !(v.admin || (n.meta.uid == v.uid && (uid == -1 || uid == n.meta.uid) && (gid == -1 || gid == n.meta.gid || gid == v.gid))) then
+          (s, v, h, .err .EPERM)
         else (s.set i (n.setMeta { n.meta with uid := (if uid == -1 then n.meta.uid else uid), gid := (if gid == -1 then n.meta.gid else gid) }), v, h, .ok .unit)
       | none => (s, v, h, .panic)
   | .chdir =>
